@@ -257,6 +257,28 @@ def translate_hp():
     return {"decodeDivisor": div, "encodeMultiplier": rate}
 
 
+def translate_unit_weapons(enums):
+    ids = {e["enum"]: {m["member"]: m["id"] for m in e["members"]} for e in enums}
+    mod = load_module("richchk.model.richchk.unis.unit_to_weapon_lookup")
+    d = mod.assigns.get("_UNIT_TO_WEAPON")
+    if not isinstance(d, ast.Dict):
+        raise TranslatorGap("_UNIT_TO_WEAPON is not a dict literal")
+    out = []
+    for k, v in zip(d.keys, d.values):
+        if not (isinstance(k, ast.Attribute) and isinstance(k.value, ast.Name) and k.value.id == "UnitId" and isinstance(v, ast.List)):
+            raise TranslatorGap("_UNIT_TO_WEAPON entry shape")
+        ws = []
+        for w in v.elts:
+            if not (isinstance(w, ast.Attribute) and isinstance(w.value, ast.Name) and w.value.id == "WeaponId"):
+                raise TranslatorGap("_UNIT_TO_WEAPON weapon shape")
+            ws.append(ids["WeaponId"][w.attr])
+        out.append((ids["UnitId"][k.attr], ws))
+    src = ast.unparse(mod.functions["get_weapons_for_unit"])
+    if "return _UNIT_TO_WEAPON.get(unit, list())" not in src:
+        raise TranslatorGap("get_weapons_for_unit shape")
+    return out
+
+
 def lean_str(s):
     return '"' + s.replace("\\", "\\\\").replace('"', '\\"') + '"'
 
@@ -279,6 +301,13 @@ def generate(gen_dir, build_dir, write_if_changed):
             gaps.append((label, str(e)))
         except Exception as e:  # noqa: BLE001
             gaps.append((label, f"reader error {type(e).__name__}: {e}"))
+    unit_weapons = []
+    try:
+        unit_weapons = translate_unit_weapons(enums)
+    except TranslatorGap as e:
+        gaps.append(("unit_weapons", str(e)))
+    except Exception as e:  # noqa: BLE001
+        gaps.append(("unit_weapons", f"reader error {type(e).__name__}: {e}"))
     L = [
         "/- GENERATED by /verif/translator/tr_codecs.py on every run.  Do not edit. -/",
         "import RichchkModel.Model.Codecs",
@@ -315,11 +344,13 @@ def generate(gen_dir, build_dir, write_if_changed):
     L.append("")
     L.append(f"def hpDecodeDivisor : Nat := {hp['decodeDivisor']}")
     L.append(f"def hpEncodeMultiplier : Nat := {hp['encodeMultiplier']}")
+    L.append("/-- unit id -> weapon ids (`_UNIT_TO_WEAPON`) -/")
+    L.append("def unitWeapons : List (Nat × List Nat) := [" + ", ".join(f"({u}, {ws})" for u, ws in unit_weapons) + "]")
     L.append("")
     L.append("end Richchk.Generated")
     write_if_changed(os.path.join(gen_dir, "Codecs.lean"), "\n".join(L) + "\n")
     with open(os.path.join(build_dir, "codecs.json"), "w") as f:
-        json.dump({"flags": flags, "enums": enums, "ai": ai, "hp": hp, "gaps": gaps}, f)
+        json.dump({"flags": flags, "enums": enums, "ai": ai, "hp": hp, "unit_weapons": unit_weapons, "gaps": gaps}, f)
     return gaps, {"flag_codecs": len(flags), "enums": len(enums), "enum_members": sum(len(e["members"]) for e in enums), "ai_scripts": len(ai), "gaps": len(gaps)}
 
 
